@@ -563,6 +563,13 @@ fn run_scenario(seed: u64, prof: &Profile, out: &mut Vec<String>, rep: &mut Repo
         }
         // answer whatever is still pending so that untimed operations complete
         absorb_written(&io, &mut pending, &mut known_ids);
+        if io.shutdown_seen() && net_up {
+            // an unbind went out during the last steps: the peer closes, it does not answer on a half-closed connection
+            net_up = false;
+            emit("\"ev\":\"SrvClose\",\"how\":\"eof\"".to_string());
+            io.push(Item::Eof);
+            settle().await;
+        }
         if net_up {
             for p in pending.clone() {
                 if p.abandoned {
